@@ -27,10 +27,21 @@ def record(ctx, run, mode, scenarios, maxtxs=6, files=None, extra_env=None, pref
     env = {"VERIF_MODE": mode, "VERIF_SCENARIOS": scenarios, "VERIF_MAXTXS": maxtxs}
     env.update(extra_env or {})
     rc, out = vlib.go_driver(ctx, PKG, run, env=env, files=files or HARNESS, timeout=1500)
+    if rc != 0 and re.search(r"HANG: .*", out):
+        # a call that did not return within 60 s is a verdict only if it does so again: the drivers are seeded, so a real
+        # deadlock repeats, while a stall of an overloaded machine does not (one unrepeatable alarm discredits every real one)
+        first = re.search(r"HANG: .*", out).group(0)
+        print("note: %s - recording again to confirm" % first)
+        for f in vlib.scenario_files(ctx, prefix):
+            os.remove(f)
+        rc, out = vlib.go_driver(ctx, PKG, run, env=env, files=files or HARNESS, timeout=1500)
+        ctx.cov["unrepeated_stalls"] = ctx.cov.get("unrepeated_stalls", 0) + (0 if re.search(r"HANG: .*", out) else 1)
     if rc != 0:
         m = re.search(r"HANG: .*", out)
         if m:
-            raise vlib.Violation("real code hung: " + m.group(0), replay=None, signature="hang")
+            rp = vlib.save_replay(ctx, {"property": ctx.prop, "seed": ctx.seed, "tier": ctx.tier, "mode": mode,
+                                        "hang": m.group(0), "output_tail": out[-3000:]}, name="hang-%s.json" % mode)
+            raise vlib.Violation("real code hung (twice in two recordings): " + m.group(0), replay=rp, signature="hang")
         pn = vlib.panic_in_repo(out)
         if pn:
             rp = vlib.save_replay(ctx, {"property": ctx.prop, "seed": ctx.seed, "tier": ctx.tier, "mode": mode,
